@@ -1,5 +1,5 @@
 """Generic flow of one property check (DESIGN.md section 4)."""
-import os, sys, time, json, random, traceback
+import os, random, sys, time, json, random, traceback
 from . import core
 from .core import log
 
@@ -208,6 +208,31 @@ def run_property(spec, tier, seed):
         line = "KNOWN-FINDING: property=%s %s [%s]" % (pid, k["what_fails"], k["id"])
         if line not in known_lines:
             known_lines.append(line)
+
+    # A proof, the tie or the correspondence broke but no generated input contradicts the property yet:
+    # search the implementation alone, with the model-independent oracles, on a larger generated set.
+    searched = 0
+    if (new_dis or broken) and not new_oracle and os.environ.get("VERIF_NO_SEARCH") != "1":
+        srng = random.Random(seed * 7919 + 13)
+        for st in spec.streams:
+            if not st.oracle or new_oracle:
+                continue
+            try:
+                cases = st.gen(srng, "search")
+                impl = core.run_harness(binary, st.mode, [c.rust for c in cases], "%s_%s_search" % (pid, st.name),
+                                        as_limit_gb=st.as_limit_gb, shards=max(st.rust_shards, 8))
+            except Exception as e:
+                log("search on stream %s failed: %s" % (st.name, e))
+                continue
+            searched += len(cases)
+            for c, raw in zip(cases, impl):
+                il = st.canon(raw) if st.canon else raw
+                c.meta["impl"], c.meta["impl_raw"] = il, raw
+                why = st.oracle(c, il)
+                if why and not classify(st, c):
+                    new_oracle.append((st, c, il, None, why))
+                    break
+        log("search: %d further cases on the implementation, %s" % (searched, "failing input found" if new_oracle else "no failing input"))
 
     rc = 0
     if new_oracle:
